@@ -225,6 +225,12 @@ def run(chk, facts, info):
     rule_r3(chk, facts)
     rule_r4(chk, facts)
     rule_r5(chk, facts)
+    chk.rule('C09-R6', 'in the data-definition modules a character of a string argument reaches the emitters as an unsigned '
+             'byte: a plain char is passed only to byte-wide parameters, or converted to unsigned char first (strings go '
+             'through the character map as codes 0..255, also into words, longs, quads and floats)', min_instances=6)
+    n6 = string_char_rule(chk, facts.program('asl'), 'C09-R6', lambda u: u in R5_UNITS)
+    if n6 < 6:
+        raise AnalysisBroken('only %d string-character arguments found in the data-definition modules' % n6)
     chk.note('Decided: pairing of emitter, range-check type and element width per data size, range-check guards of the '
              'emitters, element sizes, the single padding routine. Not decided: IEEE rounding (numerical), byte order, '
              'CHARSET mapping, DUP values.')
